@@ -23,6 +23,10 @@ pub enum Point {
     VecBeforeBucketLoad,
     /// `boxcar::Vec::get_or_alloc`: before the compare exchange
     VecBeforeAllocCas,
+    /// `boxcar::Vec::push`/`extend`: before the fill callback is invoked
+    VecBeforeFill,
+    /// `boxcar::Vec::push`/`extend`: before the value is written into its slot
+    VecBeforeSlotWrite,
     /// `boxcar::Vec::push`/`extend`: before an entry is marked active
     VecBeforeActiveStore,
     /// `boxcar::Vec::push`/`extend`: after an entry was marked active
@@ -69,6 +73,22 @@ pub enum Point {
     RunAfterNotify,
     /// `Worker::run`: immediately before returning
     RunReturn,
+    /// `par_sort::recurse`: a slice is sorted with insertion sort
+    SortInsertion,
+    /// `par_sort::recurse`: too many bad pivots, falling back to heapsort
+    SortHeapsort,
+    /// `par_sort::recurse`: patterns are broken after an imbalanced partition
+    SortBreakPatterns,
+    /// `par_sort::recurse`: partial insertion sort of a likely sorted slice
+    SortPartialInsertion,
+    /// `par_sort::recurse`: partitioning into equal and greater elements
+    SortPartitionEqual,
+    /// `par_sort::recurse`: ordinary partitioning
+    SortPartition,
+    /// `par_sort::recurse`: cancellation observed, giving up
+    SortCanceled,
+    /// `par_sort::recurse`: two halves are sorted in parallel
+    SortJoin,
 }
 
 static HOOK: AtomicUsize = AtomicUsize::new(0);
